@@ -106,7 +106,7 @@ type Conn struct {
 	Log []Op
 	// NoLog switches the operation log off (allocation-sensitive monitors).
 	NoLog bool
-	out []byte // all bytes accepted by Write
+	out   []byte // all bytes accepted by Write
 
 	// Counted decides which op kinds take part in fault indexing (nil = all).
 	Counted func(OpKind) bool
